@@ -43,8 +43,8 @@ def storer_part(ctx, thorough):
 SPEC = dict(
     sig="vars", scope=scope,
     sc_list=[
-        dict(family="vars", n=(60, 300), mc=dict(max_calls=10, after_end=0, host_writes=True, max_host_sets=1),
-             mc_thorough=dict(max_host_sets=2, max_calls=9),
+        dict(family="vars", n=(60, 40), mc=dict(max_calls=10, after_end=0, host_writes=True, max_host_sets=1),
+             mc_thorough=dict(max_host_sets=2, max_calls=6),
              invariants=["ReadsSeeHostWrites", "NextStatementFrozen"], properties=PROPS, bugs=[("failedSetWrites", ["NextStatementFrozen"], ["FailedStepFrozen"])]),
         dict(family="vars", storer="map", n=(150, 800), mc=dict(max_calls=10, after_end=0),
              invariants=INV, properties=PROPS),
